@@ -8,6 +8,7 @@ package main
 // Nothing here decides a verdict: events are validated by TLC.
 
 import (
+	"strings"
 	"bufio"
 	"bytes"
 	"encoding/json"
@@ -210,6 +211,60 @@ func TestVerifApps(t *testing.T) {
 		in := toBytes(c.In)
 		switch c.Mode {
 		case "c11":
+			if c.Display || c.Record {
+				// the files rtcmfilter writes besides stdout (display log, record) are output too: they must be complete
+				// at the moment HandleMessages returns
+				if os.Getenv("VERIF_APP") != "rtcmfilter" {
+					continue
+				}
+				dir := t.TempDir()
+				fcfg := &jsonconfig.Config{DisplayMessages: c.Display, RecordMessages: c.Record, MessageLogDirectory: dir}
+				fw := &recWriter{held: make(chan struct{}), release: make(chan struct{})}
+				readAll := func() string {
+					var sb strings.Builder
+					ents, _ := os.ReadDir(dir)
+					for _, e := range ents {
+						b, _ := os.ReadFile(filepath.Join(dir, e.Name()))
+						sb.WriteString(e.Name()[:strings.Index(e.Name()+".", ".")])
+						sb.WriteString(":")
+						sb.Write(b)
+						sb.WriteString("|")
+					}
+					return sb.String()
+				}
+				d := runHandle(in, fw, fcfg, c)
+				ret := ""
+				select {
+				case ret = <-d:
+				case <-time.After(60 * time.Second):
+					ret = "timeout"
+				}
+				atReturn := readAll()
+				outAtReturn, nw := fw.snapshot()
+				time.Sleep(400 * time.Millisecond)
+				final := readAll()
+				want := expectedOutput("rtcmfilter", in)
+				recOK := true
+				if c.Record {
+					recOK = false
+					ents, _ := os.ReadDir(dir)
+					for _, e := range ents {
+						if strings.HasSuffix(e.Name(), ".rtcm") {
+							b, _ := os.ReadFile(filepath.Join(dir, e.Name()))
+							recOK = bytes.Equal(b, want)
+						}
+					}
+					if len(want) == 0 {
+						recOK = true
+					}
+				}
+				enc.Encode(vEvent{"ev": "c11", "id": c.ID, "nin": len(in), "ref_bytes": len(want), "ref_writes": nw, "hold": 0, "ref_return": ret,
+					"expected_bytes": len(want), "files": true, "display": c.Display, "record": c.Record,
+					"returned_while_write_blocked": false, "returned": ret == "", "bytes_at_return": len(atReturn),
+					"complete_at_return": atReturn == final && bytes.Equal(outAtReturn, want), "final_equal_ref": true,
+					"ref_matches_expected": recOK && bytes.Equal(outAtReturn, want)})
+				continue
+			}
 			cfg := &jsonconfig.Config{}
 			// reference: ungated, wait until the output is quiet
 			ref := &recWriter{held: make(chan struct{}), release: make(chan struct{})}
